@@ -28,6 +28,12 @@ TypeNo(k) == CASE k = "null" -> 0 [] k = "bool" -> 1 [] k = "double" -> 2 [] k =
 TypeName(k) == IF k = "bool" THEN "boolean" ELSE k
 TypeOk(r) == "tname" \in DOMAIN r => /\ r.tname = TypeName(r.src.kind) /\ r.is = <<TypeNo(r.src.kind)>>
                                       /\ r.foreign_empty /\ r.noname
+\* json_parse_int64 / json_parse_uint64 called directly on a string node's text: 0 and the value the accessor reports, or
+\* non-zero exactly when the text does not start with a number (the accessor then reports 0)
+DirectOk(r, a, u) == "pi64" \in DOMAIN r =>
+    /\ r.pi64.ret \in {0, 1} /\ r.pu64.ret \in {0, 1}
+    /\ IntEq(r.pi64.v, a.v) /\ IntEq(r.pu64.v, u.v)
+    /\ (r.pi64.ret = 1 => a.errno \in {"EINVAL", "ANY"}) /\ (r.pu64.ret = 1 => u.errno \in {"EINVAL", "ANY"})
 AccOk(r) ==
     LET s == r.src
         a == N!GetI64(s)
@@ -37,7 +43,7 @@ AccOk(r) ==
        /\ IntEq(r.u64.v, u.v) /\ ErrOk(u.errno, r.u64.errno)
        /\ IntEq(r.i32.v, i.v) /\ ErrOk(i.errno, r.i32.errno)
        /\ r.bool = N!GetBool(s)
-       /\ DblOk(r) /\ TypeOk(r)
+       /\ DblOk(r) /\ TypeOk(r) /\ DirectOk(r, a, u)
        /\ r.ambient_same            \* the values do not depend on the errno in effect when the accessor is entered
 IncOk(r) ==
     LET x == N!IncResult(r.store, N!MkInt(r.v.neg, r.v.m), N!MkInt(r.inc.neg, r.inc.m)) IN
